@@ -149,7 +149,13 @@ def rule_solvers_stateless(ctx):
                         elif o.kind == "param" or o.kind == "upvar":
                             kinds.add("passed-in")
                         elif o.kind == "call":
-                            kinds.add("call:" + callee_decl(o.data))
+                            from .provenance import encoding_helper_summary
+
+                            t = prog.body_for_callee(o.data, b) if o.data.get("decl") != "<indirect>" else None
+                            if t is not None and encoding_helper_summary(prog, t):
+                                kinds.add("factory")  # a helper of the solver that calls the factory, encodes and returns the new solver
+                            else:
+                                kinds.add("call:" + callee_decl(o.data))
                         else:
                             kinds.add(o.kind)
                     ok = kinds <= {"factory", "passed-in"} and bool(kinds)
